@@ -69,6 +69,13 @@ FragsMerge == { FM(("a" :> FM(("x" :> FP("1"))))),
                 FM(("a" :> FL(<<>>))),                      \* an EMPTY list (a dictionary may be merged over it later)
                 FDK("a", "x", FM(("zz" :> FP("1")))),
                 FDK("s", "t", FL(<<FP("1")>>)) }
+\* EMPTY sub-configs that outlive their copy: an empty list / dictionary is merged into the second root, the second root
+\* is merged (or embedded) into the first, then one side is written to at that place - the other must not see it
+NamesEmpty == {Nm(<<Seg("a")>>), Nm(<<Seg("a"), Seg("x")>>)}
+IdxsEmpty  == {-1, 0}
+FragsEmpty == { FM(("a" :> FL(<<>>))), FM(("a" :> FM(<<>>))) }
+AddrsEmpty == AddrsOf(NamesEmpty \cup {Nm(<<Seg("s"), Seg("a")>>), Nm(<<Seg("s"), Seg("a"), Seg("x")>>)}, {-1, 0})
+PolsOne    == {"default"}
 PolsAll    == {"default", "replace", "arrreplace", "append", "prepend"}
 PolsTwo    == {"default", "append"}
 PolsThree  == {"default", "append", "prepend"}
